@@ -92,8 +92,10 @@ def r2(ctx):
             if kind != "cmp":
                 return False
             op, a, bb_, _c = x
-            # ZERO <= value   (value >= ZERO)
-            return op in ("le",) and render(a) == "rust_decimal::Decimal::ZERO" and bb_ == value
+            # ZERO <= value   (value >= ZERO) - or, the same condition with the subtraction moved across: required <= free
+            if op in ("le",) and render(a) == "rust_decimal::Decimal::ZERO" and bb_ == value:
+                return True
+            return op in ("le",) and value[0] == "call" and value[1] == "std::ops::Sub::sub" and a == value[2][1] and bb_ == value[2][0]
         ok = atoms.guard_implies(ctx.facts, b, g, suff)
         ctx.check("MockExchange::open_order:%s:%s" % (side, which), ok,
                   "the debit is control-dependent on `free - required >= 0` and stores exactly that difference",
